@@ -284,6 +284,12 @@ def run_check(prop: Prop, tier: str, seed: int, replay: str | None = None) -> in
                 proof_problems.append(f"obligation {t} depends on inadmissible axioms {r['axioms']}")
         for f, ln, tok in leandrv.grep_forbidden():
             proof_problems.append(f"forbidden construct '{tok}' at {f}:{ln}")
+    recheck_info = None
+    if ok and tier == "thorough":
+        rok, rmods, rout = leandrv.recheck(prop.module or f"SnaxVerif.Props.{pid}")
+        recheck_info = {"ok": rok, "modules": rmods}
+        if rok is False:
+            proof_problems.append("leanchecker rejected the compiled modules: " + rout)
     discharged = sum(1 for r in audit_res.values() if r["found"] and r["ok"]) if not any(
         p.startswith("forbidden") or p.startswith("lake build") for p in proof_problems) else 0
 
@@ -452,7 +458,7 @@ def run_check(prop: Prop, tier: str, seed: int, replay: str | None = None) -> in
             "checker_cmd": "cd lean && lake build && lake env lean <generated #print axioms file> (harness/leandrv.py audit)",
             "trusted_base": TRUSTED_BASE_COMMON + list(prop.trusted_base),
             "theorems": {t: audit_res.get(t, {}) for t in theorems},
-            "proof_problems": proof_problems,
+            "proof_problems": proof_problems, "leanchecker": recheck_info,
             "evaluations": len(cases), "distinct_nontrivial": len(nontrivial_keys), "distinct": len(distinct),
             "rule": prop.rule, "samples": json.loads(json.dumps(samples, default=str))[:3],
             "traces_validated_against_impl": len(cases) if ok else 0,
